@@ -116,7 +116,7 @@ fn try_insert_activity(
         FormatStop::Point(stop) => stop,
     };
 
-    match try_match_point_job(tour, stop, activity, job_index, coord_index)? {
+    match try_match_point_job(tour, stop, activity, job_index, coord_index, &|job| !added_jobs.contains(job))? {
         Some(JobInfo(job, single, place, time)) => {
             let is_inserted = added_jobs.insert(job.clone());
             if !is_inserted && matches!(job, Job::Single(_)) {
